@@ -451,6 +451,11 @@ func judge(c *mon.C, s scen, o outcome) bool {
 		}
 	}
 	silent := strings.HasPrefix(s.Peer, "silent:")
+	// a negative Dialer.Timeout (a caller passing its remaining budget after it is spent) has elapsed when Dial starts
+	to := s.Timeout
+	if to < 0 {
+		to = 0
+	}
 	hsDone := time.Duration(s.Chunks) * s.ChunkDelay // virtual completion time of an undisturbed handshake (after the dial phase)
 	if s.CtxKind == "withdeadline" && s.Event != "cancel" && (silent || s.CtxDeadline < s.DialDelay+hsDone) && (s.Timeout == 0 || s.CtxDeadline < s.Timeout) {
 		forcedBefore = true
@@ -471,8 +476,8 @@ func judge(c *mon.C, s scen, o outcome) bool {
 		if s.CtxKind == "withdeadline" {
 			bound = s.CtxDeadline
 		}
-		if s.Timeout != 0 && (bound < 0 || s.Timeout < bound) {
-			bound = s.Timeout
+		if s.Timeout != 0 && (bound < 0 || to < bound) {
+			bound = to
 		}
 		if s.Event == "cancel" {
 			if s.Place == "dialphase" {
@@ -495,7 +500,7 @@ func judge(c *mon.C, s scen, o outcome) bool {
 	}
 	if bound >= 0 && o.res.returnedAt > bound {
 		what := "context end"
-		if s.Timeout != 0 && bound == s.Timeout {
+		if s.Timeout != 0 && bound == to {
 			what = "Dialer.Timeout"
 		}
 		c.Fail("late-return/"+cls, fmt.Sprintf("Dial returned at virtual time %v, the %s was at %v", o.res.returnedAt, what, bound), det())
@@ -507,8 +512,8 @@ func judge(c *mon.C, s scen, o outcome) bool {
 		if s.CtxKind == "withdeadline" {
 			lim = s.CtxDeadline
 		}
-		if s.Timeout != 0 && (lim < 0 || s.Timeout < lim) {
-			lim = s.Timeout
+		if s.Timeout != 0 && (lim < 0 || to < lim) {
+			lim = to
 		}
 		if (lim < 0 || s.DialDelay+hsDone < lim) && err != nil {
 			c.Fail("spurious-failure/"+cls, "nothing expired before the handshake could finish but Dial failed: "+err.Error(), det())
@@ -734,6 +739,13 @@ func buildScenarios(t *testing.T) []scen {
 				for _, tls := range []bool{false, true} {
 					scenList = append(scenList, scen{CtxKind: ck, CtxDeadline: 2 * time.Hour, Timeout: to, Event: "cancel", Place: "sd0", Peer: "silent:0", Chunks: 1, WBuf: 4096, TLS: tls})
 				}
+			}
+		}
+		// T: a Dialer.Timeout that has already elapsed (negative), silent peer / slow connect, every context kind
+		for _, ck := range ctxAll {
+			for _, to := range []time.Duration{-time.Nanosecond, -time.Second} {
+				scenList = append(scenList, scen{CtxKind: ck, CtxDeadline: time.Hour, Timeout: to, Event: "none", Place: "blocked", Peer: "silent:0", Chunks: 1, WBuf: 4096})
+				scenList = append(scenList, scen{CtxKind: ck, CtxDeadline: time.Hour, Timeout: to, Event: "none", Place: "dialphase", Peer: "responsive", Chunks: 1, WBuf: 4096, DialDelay: 10 * time.Second})
 			}
 		}
 		// N: a transport WITHOUT deadline support (every SetDeadline call is refused): the response arrives in
